@@ -34,6 +34,9 @@ let on r k = match r with Ok a -> k a | Err e -> out "error" (err_name e)
 
 let op_ldl (a : f csc) (b : f list) =
   let n = int_of_nat a.nrows in
+  (* model-side certificate: the index-only run succeeds and yields the symbolic fill pattern; by theorem
+     numeric_erase the numeric phase is then safe on this pattern for ALL values *)
+  out "model_idxcheck" (if ldl_index_check a.nrows a.colptr a.rowind then "1" else "0");
   on (symbolic a) (fun (li, lv) ->
     out "etree" (fmton li.i_etree); out "Lcols" (fmtn li.i_Lcols); out "Lnnz0" (fmtn li.i_Lnnz);
     on (numeric a (li, lv)) (fun (r, (li, lv)) ->
